@@ -24,6 +24,7 @@ type delayRule struct {
 	Us    int    `json:"us"`
 	Every int    `json:"every"`
 	From  int    `json:"from"`
+	Once  bool   `json:"once"`
 }
 
 type delayMeter struct {
@@ -46,6 +47,13 @@ func (m *delayMeter) pause(op string, k int64) {
 		every := int64(r.Every)
 		if every <= 0 {
 			every = 1
+		}
+		if r.Once {
+			// a single long pause at the From-th call of the phase
+			if k == int64(r.From) || (r.From == 0 && k == 1) {
+				time.Sleep(time.Duration(r.Us) * time.Microsecond)
+			}
+			continue
 		}
 		if k >= int64(r.From) && k%every == 0 {
 			time.Sleep(time.Duration(r.Us) * time.Microsecond)
